@@ -109,8 +109,10 @@ pub struct Grid {
 
 impl Grid {
     pub fn gen<T: Flt>(src: &mut Src, max_trailing: usize) -> Grid {
-        let nx = src.usize_in(2, 12);
-        let ny = if src.chance(1, 5) { nx } else { src.usize_in(2, 12) };
+        // mostly 2..12, occasionally larger grids (size thresholds)
+        let big = src.chance(1, 30);
+        let nx = if big { src.usize_in(13, 48) } else { src.usize_in(2, 12) };
+        let ny = if src.chance(1, 5) { nx } else if big && src.bool() { src.usize_in(13, 48) } else { src.usize_in(2, 12) };
         let default_axes = src.chance(1, 4);
         let (cx, cy) = if default_axes { (AxisClass::Index, AxisClass::Index) } else {
             let mut a = axis_class(src);
